@@ -57,7 +57,7 @@ def gen_numeric_feature(s, name, lattice_size, allow_unimodal, p_mono=0.7):
     default = s.choice([_r(kps[0] - 1.0, 2), -1.0, _r(kps[-1] + 2.0, 2),
                         _r((kps[0] + kps[-1]) / 2.0, 2)])
   unimodality = 0
-  if allow_unimodal and mono == 0 and lattice_size >= 3 and s.chance(0.2):
+  if allow_unimodal and mono == 0 and lattice_size >= 3 and s.chance(0.45):
     unimodality = s.choice(["valley", "peak", 1, -1])
   return {
       "name": name,
